@@ -185,7 +185,9 @@ class MCNP_Lexer(Lexer):
         self.lineno += t.value.count("\n")
         return t
 
-    @_(r"\d{4,6}\.(\d{2}[a-z]|\d{3}[a-z]{2})")
+    # a number such as 1234.56e3 starts like a ZAID with the library "56e": it is only a ZAID when no
+    # exponent follows
+    @_(r"\d{4,6}\.(\d{2}[a-z]|\d{3}[a-z]{2})(?![0-9+\-])")
     def ZAID(self, t):
         """
         A ZAID isotope definition in the MCNP format.
